@@ -8,13 +8,13 @@ use bump_scope::{BaseAllocator, Bump};
 
 /// history: new -> two symbolic allocations that may create chunks 2 and 3 (symbolic failure mask over the base
 /// calls) -> END in {drop, reset + drop, reset_to_start + drop, scope exit + drop, into_raw/from_raw + drop}
-fn release_body<St: BumpAllocatorSettings, const END: u8, const EXTRA: usize>(max_chunks: usize)
+fn release_body<A, St: BumpAllocatorSettings, const END: u8>(max_chunks: usize)
 where
-    VA<EXTRA>: BaseAllocator<St::GuaranteedAllocated>,
+    A: BaseAllocator<St::GuaranteedAllocated> + Default,
 {
     unsafe { FAIL_MASK = kani::any() };
     set_budget(1);
-    let Ok(mut bump) = Bump::<VA<EXTRA>, St>::try_new() else {
+    let Ok(mut bump) = Bump::<A, St>::try_new() else {
         assert!(grants() == 0, "C05: a failed constructor left a grant behind");
         return;
     };
@@ -82,24 +82,27 @@ where
 }
 
 macro_rules! release_harness {
-    ($name:ident, $S:ty, $end:literal, $extra:literal, $chunks:expr) => {
+    ($name:ident, $A:ty, $S:ty, $end:literal, $chunks:expr) => {
         #[kani::proof]
         #[kani::unwind(7)]
         #[kani::stub(std::alloc::handle_alloc_error, crate::stubs::hae_stub)]
         fn $name() {
-            release_body::<$S, $end, $extra>($chunks);
+            release_body::<$A, $S, $end>($chunks);
         }
     };
 }
-release_harness!(release_drop_up1_c3, S<1, true>, 0, 0, 3);
-release_harness!(release_reset_up1_c3, S<1, true>, 1, 0, 3);
-release_harness!(release_reset_to_start_up1_c2, S<1, true>, 2, 0, 2);
-release_harness!(release_scope_up1_c2, S<1, true>, 3, 0, 2);
-release_harness!(release_raw_up1_c2, S<1, true>, 4, 0, 2);
-release_harness!(release_drop_down1_c2, S<1, false>, 0, 0, 2);
-release_harness!(release_reset_down1_c2, S<1, false>, 1, 0, 2);
-release_harness!(release_drop_up1_extra8_c2, S<1, true>, 0, 8, 2);
-release_harness!(release_reset_down1_extra24_c2, S<1, false>, 1, 24, 2);
+release_harness!(release_drop_up1_c3, VA<0>, S<1, true>, 0, 3);
+release_harness!(release_reset_up1_c3, VA<0>, S<1, true>, 1, 3);
+release_harness!(release_reset_to_start_up1_c2, VA<0>, S<1, true>, 2, 2);
+release_harness!(release_scope_up1_c2, VA<0>, S<1, true>, 3, 2);
+release_harness!(release_raw_up1_c2, VA<0>, S<1, true>, 4, 2);
+release_harness!(release_drop_down1_c2, VA<0>, S<1, false>, 0, 2);
+release_harness!(release_reset_down1_c2, VA<0>, S<1, false>, 1, 2);
+release_harness!(release_drop_up1_extra8_c2, VA<8>, S<1, true>, 0, 2);
+release_harness!(release_reset_down1_extra24_c2, VA<24>, S<1, false>, 1, 2);
+release_harness!(release_drop_over_up1_c2, VAOver, S<1, true>, 0, 2);
+release_harness!(release_reset_over_down1_c2, VAOver, S<1, false>, 1, 2);
+release_harness!(release_drop_stateful_down1_c2, VAStateful, S<1, false>, 0, 2);
 
 /// a Bump that was never used in unallocated mode never calls the base allocator
 #[kani::proof]
